@@ -4,6 +4,7 @@ from pyvc.spec_intrinsics import *  # noqa
 from spec import e5
 
 import secsgem.secs.variables as V
+from contracts import lemmas_float as LF
 
 NUMERIC = [V.U1, V.U2, V.U4, V.U8, V.I1, V.I2, V.I4, V.I8, V.F4, V.F8]
 ALL_LEAF = NUMERIC + [V.String, V.JIS8, V.Binary, V.Boolean]
@@ -45,3 +46,163 @@ class DecodeItemHeader:
         n = result[2]
         return (result[0] == text_pos + 1 + k and result[1] == self.format_code and 0 <= n < 256 ** k
                 and seq_eq_at(data, text_pos, e5.header(self.format_code, n, k)))
+
+
+# =============================================================================================== numbers
+def elem(cls):
+    return Float if cls._base_type is float else Int
+
+
+def in_bounds(self, v):
+    """What BaseNumber.set lets through (for floats NaN passes both comparisons)."""
+    return not (v < self._min or v > self._max)
+
+
+def inv_T(self):
+    return forall(0, len(self.value), lambda j: in_bounds(self, self.value[j]))
+
+
+NUM_CASES = [(c.__name__, {"cls": c}) for c in NUMERIC]
+
+
+@contract("secsgem.secs.variables.base_number:BaseNumber._set_list", "C01")
+class NumSetList:
+    """O5 (list form): stores exactly the given elements or raises ValueError exactly when one is out of the
+    class bounds or the list is longer than `count`."""
+
+    cases = NUM_CASES
+
+    def inputs(cls):
+        return {"self": Obj(cls, value=ListOf(elem(cls)), count=Int), "value": ListOf(elem(cls))}
+
+    def raises(self, value):
+        return {ValueError: 0 <= self.count < len(value)
+                or exists(0, len(value), lambda j: not in_bounds(self, value[j]))}
+
+    def ensures(self, value):
+        return len(self.value) == len(value) and forall(
+            0, len(value), lambda j: e5.num_eq(self.format_code, self.value[j], value[j]))
+
+    def inv_1(self, new_list, value, i):
+        return len(new_list) == i and forall(
+            0, i, lambda j: e5.num_eq(self.format_code, new_list[j], value[j]) and in_bounds(self, value[j]))
+
+    def loops(cls):
+        return {1: Loop(a=NumSetList.inv_1, types={"new_list": ListOf(elem(cls))})}
+
+
+@contract("secsgem.secs.variables.base_number:BaseNumber.set", "C01")
+class NumSet:
+    """O5: set(list) behaves as _set_list; set(scalar) stores [scalar] or raises ValueError when out of bounds."""
+
+    cases = [(f"{c.__name__}-{form}", {"cls": c, "form": form}) for c in NUMERIC for form in ("list", "scalar")]
+    uses = [NumSetList]
+
+    def inputs(cls, form):
+        v = ListOf(elem(cls)) if form == "list" else elem(cls)
+        return {"self": Obj(cls, value=ListOf(elem(cls)), count=Int), "value": v}
+
+    def raises(self, value, case):
+        if case["form"] == "list":
+            return {ValueError: 0 <= self.count < len(value)
+                    or exists(0, len(value), lambda j: not in_bounds(self, value[j]))}
+        return {ValueError: not in_bounds(self, value)}
+
+    def ensures(self, value, case):
+        if case["form"] == "list":
+            return len(self.value) == len(value) and forall(
+                0, len(value), lambda j: e5.num_eq(self.format_code, self.value[j], value[j]))
+        return len(self.value) == 1 and e5.num_eq(self.format_code, self.value[0], value)
+
+    def modifies(cls, form=None):
+        return {"self.value": ListOf(elem(cls))}
+
+
+# use of _set_list from set: what it may modify
+NumSetList.modifies = staticmethod(lambda cls, form=None, **kw: {"self.value": ListOf(elem(cls))})
+
+
+@contract("secsgem.secs.variables.base_number:BaseNumber.encode", "C01")
+class NumEncode:
+    """O6/O7: under the class invariant the bytes are exactly item(fc, payload): canonical header, then every
+    element big-endian in order; no struct.error/OverflowError; ValueError exactly when the payload exceeds 2^24-1."""
+
+    cases = NUM_CASES
+
+    def inputs(cls):
+        return {"self": Obj(cls, value=ListOf(elem(cls)), count=Int)}
+
+    def requires(self):
+        return inv_T(self)
+
+    def raises(self):
+        return {ValueError: len(self.value) * e5.num_size(self.format_code) > 0xFFFFFF}
+
+    def ensures(self, result):
+        fc = self.format_code
+        size = e5.num_size(fc)
+        n = len(self.value)
+        hl = e5.hlen(n * size)
+        return (len(result) == hl + n * size
+                and seq_eq_at(result, 0, e5.header_min(fc, n * size))
+                and forall(0, n, lambda j: seq_eq_at(result, hl + size * j, e5.num_bytes(fc, self.value[j]))))
+
+    def inv_1(self, result, i):
+        fc = self.format_code
+        size = e5.num_size(fc)
+        n = len(self.value)
+        hl = e5.hlen(n * size)
+        return (len(result) == hl + i * size
+                and seq_eq_at(result, 0, e5.header_min(fc, n * size))
+                and forall(0, i, lambda j: seq_eq_at(result, hl + size * j, e5.num_bytes(fc, self.value[j]))))
+
+    loops = {1: Loop(a=inv_1)}
+
+
+@contract("secsgem.secs.variables.base_number:BaseNumber.decode", "C01")
+class NumDecode:
+    """O8 (also C02): for every k in 1..3 - minimal or not - an item header(fc, n, k) ++ payload at `start`
+    leaves value == the numbers the payload denotes, returns start+1+k+n and raises nothing (ValueError only
+    when the item definition limits the element count).  Floats: every finite bit pattern."""
+
+    cases = [(f"{c.__name__}-k{k}", {"cls": c, "k": k}) for c in NUMERIC for k in (1, 2, 3)]
+    uses = [(NumSet, lambda case: {"cls": case["cls"], "form": "list"})]
+
+    def inputs(cls, k):
+        return {"self": Obj(cls, value=ListOf(elem(cls)), count=Int), "data": Bytes(min_len=1), "start": Int(0, None)}
+
+    def requires(self, data, start, case):
+        k = case["k"]
+        fc = self.format_code
+        size = e5.num_size(fc)
+        if not (start + 1 + k <= len(data) and data[start] == fc * 4 + k):
+            return False
+        n = e5.uint_at(data, start + 1, k)
+        return (n % size == 0 and start + 1 + k + n <= len(data)
+                and forall(0, n // size, lambda j: is_finite(e5.num_value(fc, data, start + 1 + k + size * j))))
+
+    def raises(self, data, start, case):
+        n = e5.uint_at(data, start + 1, case["k"])
+        return {ValueError: 0 <= self.count < n // e5.num_size(self.format_code)}
+
+    def ensures(self, data, start, result, case):
+        k = case["k"]
+        fc = self.format_code
+        size = e5.num_size(fc)
+        n = e5.uint_at(data, start + 1, k)
+        return (result == start + 1 + k + n and len(self.value) == n // size
+                and forall(0, n // size, lambda j: e5.num_eq(fc, self.value[j], e5.num_value(fc, data, start + 1 + k + size * j))))
+
+    def inv_1(self, result, text_pos, data, start, i, case):
+        k = case["k"]
+        fc = self.format_code
+        size = e5.num_size(fc)
+        return (len(result) == i and text_pos == start + 1 + k + size * i
+                and forall(0, i, lambda j: e5.num_eq(fc, result[j], e5.num_value(fc, data, start + 1 + k + size * j))))
+
+    def loops(cls, k):
+        return {1: Loop(a=NumDecode.inv_1, types={"result": ListOf(elem(cls))})}
+
+    def axioms(cls, k):
+        # finite decoded floats pass the bounds check: lemma LemmaFloatBounds/decode-range (proved separately)
+        return [LF.range_axiom(cls)] if cls._base_type is float else []
